@@ -1,7 +1,7 @@
 """Generator for the `scopes` workload family: trees of Scope/until blocks with children."""
 
 DELAYS = [0.25, 0.5, 1, 1.5, 2, 3]
-ERR_TYPES = ["E", "E", "A", "B", "K"]
+ERR_TYPES = ["E", "E", "A", "B", "K", "Z"]
 PRIV_TYPES = ["assert", "exit", "kbd", "assert_sub"]
 
 
